@@ -21,7 +21,7 @@ ASSUMPTIONS = [
 OUTSIDE = ["unicode normalisation / byte encoding of actual strings", "pandas behaviour on NaN or mixed-type keys",
            "more distinct (name,dose) pairs than the bound"]
 RULE = "Row structure (which names/doses coincide, which are control) is chosen by the solver through the comparisons pandas/numpy make."
-BUDGET_S = {"quick": 200, "thorough": 1500}
+BUDGET_S = {"quick": 600, "thorough": 3000}
 
 
 def configs(tier, seed):
